@@ -10,22 +10,27 @@
 (*                                   First Max Min Avg Count Sum(val) Flatten(val) Merge(val) *)
 (* Items are integers VInt(i), or IdVal(l) = "the integer id() of the dict / list     *)
 (* spec object at level l" (the values that collide with accumulator-tree keys).      *)
+(* The spec nodes, aggregators and key specs of different levels are distinct objects. *)
 (*                                                                                   *)
 (* PART 1 (law) is written from the property statement and the Group / aggregator     *)
 (* docstrings: RefGroup is the dictionary a hand-written bucketing loop builds.       *)
 (* PART 2 (mechanism) transcribes glom/grouping.py and the group-mode half of         *)
 (* glom/reduction.py: ONE accumulator tree per evaluation, a Python dict keyed by     *)
 (* id(spec) of dict / list specs, by aggregator objects, by key-spec objects (STOP     *)
-(* marks) *and* by bucket keys, whose values are sub-trees, accumulators and marks.   *)
+(* marks) and by (id(spec), bucket key) pairs, whose values are sub-trees,            *)
+(* accumulators and marks.  (Until glom fd673fd the bucket key itself was the tree     *)
+(* key and could collide with id(spec); until b769243 the "stops immediately" base     *)
+(* case ignored a top-level Limit: both historic mechanisms are kept as mutants.)      *)
 (* PART 3 is the machine: NewEvaluation / Feed(item) / Finish over a stack of          *)
 (* evaluations of the same spec object sharing one object heap.                        *)
 (* PART 4 states the laws over the machine state.                                     *)
 EXTENDS GlomData
 
-CONSTANTS Fixes,     \* subset of {"stop", "bucketns", "base", "skiptrace"}: candidate repairs applied to the
+CONSTANTS Fixes,     \* subset of {"stop", "skiptrace"}: candidate repairs applied to the
                      \* transcribed mechanism ({} = the code as it is)
-          Mutant     \* "none" | "carry" | "avgint" | "limit1" | "firstlast": wrong mechanisms
-                     \* the laws must reject (vacuity check)
+          Mutant     \* "none" | "carry" | "avgint" | "limit1" | "firstlast" | "rawbucket" | "nobase":
+                     \* wrong mechanisms the laws must reject (vacuity check); the last two are
+                     \* the mechanisms of glom before fd673fd / b769243
 
 \* ================================================================================
 \* vocabulary
@@ -37,7 +42,7 @@ LeafL(op, agg, vf) == [op |-> op, agg |-> agg, val |-> vf]
 IdVal(l)      == [k |-> "id", n |-> l]          \* id(spec node l): a Python int
 AggKey(l)     == [k |-> "aggobj", n |-> l]      \* the aggregator / Limit object itself as dict key
 KeySpecKey(l) == [k |-> "keyspec", n |-> l]     \* the key-spec object itself as dict key
-BucketKey(l, key) == [k |-> "bucket", n |-> l, key |-> key]   \* only with fix "bucketns"
+BucketKey(l, key) == [k |-> "bucket", n |-> l, key |-> key]   \* the tuple (id(spec node l), key)
 VExc(s)       == [k |-> "exc", s |-> s]
 IsExc(v)      == v.k = "exc"
 
@@ -213,11 +218,11 @@ GEval(spec, h, ta, l, x) ==
               LET key == KeyApply(L.key, x) IN
               IF key = SKIP THEN RetAcc(h1, acc)
               ELSE
-                LET bk  == IF "bucketns" \in Fixes THEN BucketKey(l, key) ELSE key
-                    h2  == IF ~DHas(h1, acc.a, key)                \* if key not in acc: tree[key] = {}
+                LET bk  == IF Mutant = "rawbucket" THEN key ELSE BucketKey(l, key)   \* bucket = (_spec_id, key)
+                    h2  == IF ~DHas(h1, acc.a, key)                \* if key not in acc: tree[bucket] = {}
                            THEN DSet(Append(h1, Cell("dict", <<>>)), ta, bk, VRef(NewAddr(h1)))
                            ELSE h1
-                IN IF ~DHas(h2, ta, bk) THEN R(h2, VExc("KeyError"))      \* scope[ACC_TREE] = tree[key]
+                IN IF ~DHas(h2, ta, bk) THEN R(h2, VExc("KeyError"))      \* scope[ACC_TREE] = tree[bucket]
                    ELSE
                      LET res == GEval(spec, h2, DGet(h2, ta, bk).a, l + 1, x) IN
                      IF IsExc(res.r) THEN res
@@ -238,8 +243,9 @@ GEval(spec, h, ta, l, x) ==
     [] L.op = "agg"  -> AggEval(h, ta, l, L, x)
 
 \* ---- Group.glomit: one evaluation = [items, root, ret, stopped] ----------------------
-\* base case "the spec stops immediately": type(self.spec)() for dict / list, else None
-BaseLevel(spec) == IF "base" \in Fixes THEN Body(spec) ELSE 1
+\* base case "the spec stops immediately": look through a Limit, then type(base)() for
+\* dict / list, else None
+BaseLevel(spec) == IF Mutant = "nobase" THEN 1 ELSE Body(spec)
 EvNew(spec, h, root) ==
   LET h1 == IF root = 0 THEN Append(h, Cell("dict", <<>>)) ELSE h     \* scope[ACC_TREE] = {}
       rt == IF root = 0 THEN NewAddr(h) ELSE root
@@ -323,7 +329,7 @@ Finish ==
 \* ================================================================================
 \* PART 4.  Laws
 \* ================================================================================
-\* the regions of the four recorded findings (declarative, on spec and items only)
+\* the regions of the two recorded findings (declarative, on spec and items only)
 NKeyLevels(sp) == Cardinality({l \in 1..Len(sp) : sp[l].op = "dict"})
 Leaf(sp)       == sp[Len(sp)]
 \* (F1) First() under a key level and some bucket is reached a second time
@@ -332,20 +338,13 @@ RegionFirstStop(sp, xs) ==
   /\ Leaf(sp).op = "agg" /\ Leaf(sp).agg = "First" /\ NKeyLevels(sp) >= 1
   /\ LET ks == Kept(sp, xs) IN
      \E i, j \in 1..Len(ks) : i < j /\ BucketPath(sp, ks[i]) = BucketPath(sp, ks[j])
-\* (F2) an item equal to id() of a dict spec object is used as a bucket key
-RegionIdCollision(sp, xs) ==
-  \E i \in 1..Len(xs) : xs[i].k = "id" /\ sp[xs[i].n].op = "dict"
-\* (F3) a top-level Limit over a dict / list spec that receives no item
-RegionLimitEmpty(sp, xs) ==
-  sp[1].op = "limit" /\ sp[2].op \in {"dict", "list"} /\ Passed(sp, xs) = <<>>
-\* (F4) an item that passes the first key level is dropped (SKIP) further down, where the
+\* (F2) an item that passes the first key level is dropped (SKIP) further down, where the
 \* enclosing level has already created its bucket
 RegionSkipTrace(sp, xs) ==
   LET d == Body(sp) ps == Passed(sp, xs) IN
   /\ sp[d].op = "dict" /\ sp[d + 1].op # "last"
   /\ \E i \in 1..Len(ps) : KeyApply(sp[d].key, ps[i]) # SKIP /\ ~Survives(sp, d, ps[i])
-InFindingRegion(sp, xs) ==
-  RegionFirstStop(sp, xs) \/ RegionIdCollision(sp, xs) \/ RegionLimitEmpty(sp, xs) \/ RegionSkipTrace(sp, xs)
+InFindingRegion(sp, xs) == RegionFirstStop(sp, xs) \/ RegionSkipTrace(sp, xs)
 
 \* L1: after NewEvaluation and after every Feed, for every evaluation (in progress,
 \* suspended by a nested one, or finished) the result is the reference grouping of the
